@@ -120,6 +120,12 @@ pub fn plan_for(prop: &str, thorough: bool, seed: u64) -> Plan {
     Plan { property: prop.to_string(), thorough, seed, runs, budget_s, workers }
 }
 
+/// Run indices the supervising parent told this batch to leave out (they die with a listed known finding).
+fn skip_runs() -> &'static Vec<u64> {
+    static SKIP: std::sync::OnceLock<Vec<u64>> = std::sync::OnceLock::new();
+    SKIP.get_or_init(|| std::env::var("FSIM_SKIP").map(|s| s.split(',').filter_map(|x| x.trim().parse().ok()).collect()).unwrap_or_default())
+}
+
 /// Tells the supervising parent process which run this worker is executing (read only if this process dies).
 fn note_inflight(slot: usize, idx: u64) {
     use std::os::unix::fs::FileExt;
@@ -497,6 +503,9 @@ pub fn check_property(plan: &Plan) -> i32 {
                 // do not run far beyond the first unmatched violation
                 if std::env::var("VERIF_TRIAGE").is_err() && idx > unmatched_found.load(Ordering::SeqCst).saturating_add(64) {
                     break;
+                }
+                if skip_runs().contains(&(idx as u64)) {
+                    continue;
                 }
                 let input = input_for(&prop, thorough, seed, idx as u64);
                 note_inflight(slot, idx as u64);
